@@ -192,6 +192,7 @@ def metadata_edit(check, prog):
                   'a key is replaced iff its new value is not None, in a copy of the '
                   'dict', prog.loc(q, fd))
     c01.f3_vectors(check, prog, Canon())
+    c01.f6_copy_metadata(check, prog)
 
 
 def attrs_tables(check, prog):
